@@ -1121,6 +1121,15 @@ def c05_oracle(case, trace):
     if mode == "do-nothing" and any(p[1] in ("signal", "kill") for p in ev): out.append("do-nothing mode signalled or killed the command")
     if mode == "signal" and any(p[1] == "kill" for p in ev): out.append("signal mode killed the command")
     if mode == "queue" and any(p[1] in ("signal", "kill") for p in ev): out.append("queue mode signalled or killed the command")
+    # the configured signal (documented for --stop-signal / --signal): signal mode sends --stop-signal, else --signal, else TERM;
+    # restart mode stops with --stop-signal, else TERM
+    SIGNUM = {"SIGHUP": 1, "SIGINT": 2, "SIGQUIT": 3, "SIGUSR1": 10, "SIGUSR2": 12, "SIGTERM": 15}
+    stop_sig = next((SIGNUM.get(f.split("=")[1]) for f in fl if f.startswith("--stop-signal=")), None)
+    sig = next((SIGNUM.get(f.split("=")[1]) for f in fl if f.startswith("--signal=")), None)
+    want = {"signal": stop_sig or sig or 15, "restart": stop_sig or 15}.get(mode)
+    if want is not None:
+        bad = sorted({p[3] for p in ev if p[1] == "signal" and len(p) > 3 and p[3] != str(want)})
+        if bad: out.append(f"{mode} mode sent signal {','.join(bad)}, configured is {want}")
     # freshness: the last change is followed by a run (attempt) that started after it — restart always; queue when every run ends by itself soon
     now = 0; last_chg = None
     for o in ops.split(";"):
